@@ -110,4 +110,4 @@ inst!(c19_finders_report_pair, [props=C19 xprops=C14 tier=quick cfg=x86std t=600
 inst!(c19_with_ranker_257, [props=C19+C10 xprops=C14 tier=thorough cfg=x86std t=1800 role=with_ranker-cap uw=with_ranker:260], 3, with_ranker::<257>(257, 257, false));
 inst!(c19_with_ranker_long_258, [props=C19+C14+C10 tier=quick cfg=x86std t=1800 role=with_ranker-cap uw=with_ranker:260], 3, with_ranker_long::<258>());
 inst!(c19_with_ranker_cap, [props=C19+C10 xprops=C14 tier=thorough cfg=x86std t=3600 role=with_ranker], 262, with_ranker::<260>(250, 260, false));
-inst!(c19_with_ranker_300, [props=C19 xprops=C14 tier=thorough cfg=x86std t=7200 role=with_ranker], 302, with_ranker::<300>(0, 300, false));
+inst!(c19_with_ranker_300, [props=C19 xprops=C14 tier=manual cfg=x86std t=7200 role=with_ranker], 302, with_ranker::<300>(0, 300, false));
